@@ -27,11 +27,11 @@ theorem oldPaths_sublist_nil {l l' : List (Path × PObj)} (hs : l'.Sublist l) (h
 
 /-- whatever the point inside the conversion of `p`: afterwards `p` is not a compound dataset any more -/
 theorem inside_not_old {run : Nat} {f : File} {p : Path} {o : OldProp} (c : Nat)
-    (ho : lookup f.props p = some (.old o)) :
+    (ho : lookup f.props p = some (.old o)) (hfree : nameTaken f.props (converted run p o) = false) :
     p ∉ oldPaths (convertPropTake run f p c).1.props := by
   unfold convertPropTake
   rw [ho]
-  simp only
+  simp only [hfree, Bool.false_eq_true, ↓reduceIte]
   obtain ⟨n, hn⟩ := createAll_prefix ((converted run p o).take c) (f.props.filter (·.1 != p))
   rw [hn, oldPaths_append, oldPaths_filter,
     oldPaths_sublist_nil ((List.take_sublist _ _).trans (List.take_sublist _ _)) (oldPaths_converted run p o)]
@@ -39,9 +39,9 @@ theorem inside_not_old {run : Nat} {f : File} {p : Path} {o : OldProp} (c : Nat)
 
 /-- … so no later `collect_tasks` schedules it -/
 theorem inside_not_scheduled {run : Nat} {f : File} {p : Path} {o : OldProp} (lib : List Nat) (c : Nat)
-    (ho : lookup f.props p = some (.old o)) :
+    (ho : lookup f.props p = some (.old o)) (hfree : nameTaken f.props (converted run p o) = false) :
     Step.prop p ∉ collect lib (convertPropTake run f p c).1 := by
-  have h := inside_not_old (run := run) c ho
+  have h := inside_not_old (run := run) c ho hfree
   intro hm
   unfold collect at hm
   split at hm
@@ -57,11 +57,19 @@ theorem inside_not_scheduled {run : Nat} {f : File} {p : Path} {o : OldProp} (li
 
 /-- cut before the first `create_property` call: the dataset is gone -/
 theorem inside_zero_gone {run : Nat} {f : File} {p : Path} {o : OldProp}
-    (ho : lookup f.props p = some (.old o)) :
+    (ho : lookup f.props p = some (.old o)) (hfree : nameTaken f.props (converted run p o) = false) :
     hasPath (convertPropTake run f p 0).1.props p = false ∧ (convertPropTake run f p 0).2 = none := by
   unfold convertPropTake
   rw [ho]
-  simp [createAll, hasPath]
+  simp [createAll, hasPath, hfree]
+
+/-- a refused conversion (a needed name is taken) leaves the file as it is, wherever it would have been cut -/
+theorem inside_refused {run : Nat} {f : File} {p : Path} {o : OldProp} (c : Nat)
+    (ho : lookup f.props p = some (.old o)) (htaken : nameTaken f.props (converted run p o) = true) :
+    convertPropTake run f p c = (f, some .valueError) ∧ convertProp run f p = (f, some .valueError) := by
+  unfold convertPropTake convertProp
+  rw [ho]
+  simp [htaken]
 
 /-- cut after the last call: the complete conversion -/
 theorem inside_full {run : Nat} {f : File} {p : Path} (c : Nat)
